@@ -79,9 +79,18 @@ def gen_convert(rng, tier, base, cli):
         dopts["mark_heads_marking"] = True
     dest = "%s/out%s" % (base, DEST_EXT[dfmt])
     sopts = {"quiet": True}
+    if rng.random() < 0.2:
+        sopts["gf_split"] = True
+        for x in f["tb"]:
+            for c in model.constituents(x["root"])[1:]:
+                if rng.random() < 0.5 and "-" not in c[0] and "&" not in c[0]:
+                    c[0] = c[0] + rng.choice(["-SBJ", "-1", "-TMP-2", "=1"])
+        if rng.random() < 0.6:
+            trans = [["ptb_delete_traces", rng.choice([{}, {"keepcoindex": True}])]] + \
+                [t for t in trans if t[0] != "ptb_delete_traces"]
     if cli:
         argv = ["transform", path, dest, "--src-format", fmt, "--dest-format", dfmt,
-                "--src-opts", "quiet"]
+                "--src-opts"] + sorted(sopts)
         if dopts:
             argv += ["--dest-opts"] + sorted(dopts)
         if trans:
